@@ -294,13 +294,13 @@ class AspectRatioAttribute:
       LOGGER.error("ittp:aspectRatio invalid syntax")
       return None
 
-    try:
+    if int(m.group(1)) == 0 or int(m.group(2)) == 0:
+
+      LOGGER.error("ittp:aspectRatio has a zero term")
+
+    else:
 
       return Fraction(int(m.group(1)), int(m.group(2)))
-
-    except ZeroDivisionError:
-
-      LOGGER.error("ittp:aspectRatio denominator is 0")
     
     return None
 
@@ -326,13 +326,13 @@ class DisplayAspectRatioAttribute:
       LOGGER.error("ttp:displayAspectRatio invalid syntax")
       return None
 
-    try:
+    if int(m.group(1)) == 0 or int(m.group(2)) == 0:
+
+      LOGGER.error("ttp:displayAspectRatio has a zero term")
+
+    else:
 
       return Fraction(int(m.group(1)), int(m.group(2)))
-
-    except ZeroDivisionError:
-
-      LOGGER.error("ttp:displayAspectRatio denominator is 0")
     
     return None
 
